@@ -642,3 +642,14 @@ def replay(w, rec):
         rec.inconclusive.append("replay of stub scripts: run ./check C06 (the stub matrix is enumerated completely on every run)")
         return
     run_real(rec, C.rng, w["prob"], "A:replay", extra.get("method", "auto"), extra.get("options", {}))
+
+
+# workloads added after the seventh round of seeded changes (DESIGN section 9): part of the rule of this check
+_RULE_ADDENDUM = 'on the LP route additionally every vector / block spelling x sense with the optimum pushed against the written constraint'
+_info_base = info
+
+
+def info(tier):  # noqa: F811
+    d = _info_base(tier)
+    d["rule"] = d["rule"] + "; " + _RULE_ADDENDUM
+    return d
